@@ -32,10 +32,10 @@ def langid_parts(prog, rep):
                 else:
                     tag = s.state.facts.get(('tag', ('fld', ('param', 1), i)))
                     if tag == 'neg':
-                        if not (c[0] == 'pure' and c[1].endswith('Vec::<T>::new')):
+                        if not (c[0] == 'pure' and (c[1].endswith('Vec::<T>::new') or c[1] in ('Vec::new', 'default') or c[1].endswith('::with_capacity'))):
                             bad.append('no variants must decompose to an empty list: %s' % e.short(c, 100))
                     elif tag == 'pos':
-                        ap = terms.access_path(c[2][0]) if c[0] == 'pure' and c[1].endswith('::to_vec') and c[2] else None
+                        ap = terms.access_path(c[2][0]) if c[0] == 'pure' and c[1].split('::')[-1] in ('to_vec', 'into_vec', 'to_owned', 'clone', 'into', 'from') and c[2] else None
                         if not (ap and ap[0] == 1 and terms.strip_some(ap[1])[:1] == (i,)):
                             bad.append('the variant list is not a copy of the stored variants: %s' % e.short(c, 120))
                     else:
